@@ -124,6 +124,28 @@ Theorem fapi_outer_inert_par : forall w n now r1 r2 st s1 x1 s2 x2,
 Proof. exact init_auth_par_inert. Qed.
 Print Assumptions fapi_outer_inert_par.
 
+(* ---- the JAR-aware handlers extend those of Model/Authorize.v conservatively ----
+   With JAR (resp. CIBA JAR) disabled and no object sent they answer, and change the store,
+   exactly like init_auth / push_auth / init_back_auth, for every request and state: the
+   theorems about pushed requests proved on Model/Authorize.v carry over to them. *)
+Theorem jar_handlers_conservative_authorize : forall w jx n now r st,
+  cf_jar_enabled (w_cfg w) = false ->
+  run_seq (init_auth_jar w jx n now (mkJAReq r JNone)) st = run_seq (init_auth w n now r) st.
+Proof. exact init_auth_jar_plain. Qed.
+Print Assumptions jar_handlers_conservative_authorize.
+
+Theorem jar_handlers_conservative_par : forall w jx n now r st,
+  cf_jar_enabled (w_cfg w) = false ->
+  run_seq (push_auth_jar w jx n now r None) st = run_seq (push_auth w n now r) st.
+Proof. exact push_auth_jar_plain. Qed.
+Print Assumptions jar_handlers_conservative_par.
+
+Theorem jar_handlers_conservative_ciba : forall w jx n now r st,
+  cf_ciba_jar_enabled (w_cfg w) = false ->
+  run_seq (init_back_auth_jar w jx n now r None) st = run_seq (init_back_auth w n now r) st.
+Proof. exact init_back_auth_jar_plain. Qed.
+Print Assumptions jar_handlers_conservative_ciba.
+
 (* ---- SLOT (main developer): request_uri_bound / request_uri_one_shot -------------------------
    Theorems over all histories of Model/Authorize.v (push_auth, init_auth):
      request_uri_bound    : a request_uri resolves only for the pushing client, only before expiry;
